@@ -4,18 +4,28 @@ from vlib.runner import Check
 from vlib import core, apisweep
 from vlib.core import VERIF
 
-# ownership / heap theorems proved in the sibling projects (audited by name on every run: they must still be stated there)
+# ownership / heap / no-undefined-access theorems proved in the sibling projects: the EXPLICIT list C04 relies on.  Every name must be
+# stated in its file on every run (a missing file or a missing theorem fails the check); their statement hashes are pinned by the
+# owning property's entry in props/required_theorems.json.
 HEAP_THEOREMS = {
-    'lean-parser/XrlParser/Props/C07.lean': ['heap_balanced_fixed', 'heap_leak_count'],
-    'lean-crystals/XrlCrystals/Props/C14.lean': ['crystals_no_ub', 'arrayFree_releases_everything', 'no_file_left_open'],
-    'lean-cpp/XrlCpp/Props/C18.lean': ['wrap_no_leak_fixed', 'struct_released_when_destroyed'],
+    'lean-parser/XrlParser/Props/C07.lean': ['heap_balanced_fixed', 'heap_balanced_partial', 'heap_leak_count', 'heap_leak_error_path'],
+    'lean-crystals/XrlCrystals/Props/C14.lean': ['crystals_no_ub', 'copies_independent', 'arrayFree_releases_everything', 'no_file_left_open'],
+    'lean-cpp/XrlCpp/Props/C18.lean': ['wrap_no_leak_fixed', 'wrap_no_leak_extracted', 'struct_released_when_destroyed'],
+    'lean-c06/XrlC06/Props/C06.lean': ['cp_temporaries_released', 'cp_temporaries_released_fixed', 'refr_temporaries_released'],
+    'lean-c06/XrlC06/Props/C06r.lean': ['refr_temporaries_released_fixed'],
+    'lean-c13/XrlC13/Props/C13.lean': ['dspacing_no_ub_fixed', 'fh_no_ub_fixed', 'fh_null_fixed', 'volume_null_fails'],
 }
+
+INT_MIN, INT_MAX = -2147483648, 2147483647
+INT_EXT = [INT_MIN, INT_MIN + 1, INT_MAX, INT_MAX - 1, -65536, 65536]
+# doubles at the ends of the format (the sanitizers judge them; values are not judged here)
+DBL_EXT = [-0.0, 5e-324, 1e-310, 2.2250738585072014e-308, 1e-30, 1e30, 1e100, 1e300, 1.7976931348623157e308, -1e300]
 
 class C04(Check):
     id = 'C04'
     module = 'Xrl.Props.C04'
     namespace = 'Xrl.C04'
-    extra_modules = [('Xrl.Props.C04b', 'Xrl.C04'), ('Xrl.Props.C04c', 'Xrl.C04')]
+    extra_modules = [('Xrl.Props.C04b', 'Xrl.C04'), ('Xrl.Props.C04c', 'Xrl.C04'), ('Xrl.Props.C04d', 'Xrl.C04')]
     functions = None
     assumptions = ['PARTIAL: proved are (a) index arithmetic / signed overflow / function-pointer indices of the machine-translated numeric API against the DECLARED C bounds, for all tables and all int arguments, '
                    'and (b) the ownership protocols of the hand models in the sibling projects (parser, crystal containers, C++ wrappers, compound temporaries); the allocator, libc and the compiler are not modelled',
@@ -31,16 +41,24 @@ class C04(Check):
         return ls + [l[:-1] + 'N' for l in ls if l.endswith(' E')][::4]
 
     def extra_steps(self, ctx, rep):
+        import json
         missing = []
+        try: req = json.load(open(os.path.join(VERIF, 'props', 'required_theorems.json')))
+        except (OSError, ValueError): req = {}
+        pinned = {f: set(ths) for fs in req.values() for f, ths in fs.items()}
+        unpinned = []
         for path, names in HEAP_THEOREMS.items():
             p = os.path.join(VERIF, path)
             try: txt = core.strip_comments(open(p).read())
             except OSError:
-                ctx.notes.append('ownership theorems: %s not present yet' % path); continue
+                missing.append('%s (file not found)' % path); continue
             for n in names:
-                if not re.search(r'theorem\s+%s\b' % re.escape(n), txt): missing.append('%s:%s' % (path, n))
+                if not re.search(r'^\s*theorem\s+%s\b' % re.escape(n), txt, re.M): missing.append('%s:%s' % (path, n))
+                elif n not in pinned.get(path, ()): unpinned.append('%s:%s' % (path, n))
         if missing: rep['problems'].append('ownership theorems no longer stated: ' + ', '.join(missing))
+        if unpinned: ctx.notes.append('ownership theorems whose statement is not pinned in props/required_theorems.json: ' + ', '.join(unpinned))
         ctx.coverage['ownership_theorems_indexed'] = sum(len(v) for v in HEAP_THEOREMS.values()) - len(missing)
+        ctx.coverage['ownership_theorems'] = {k: list(v) for k, v in HEAP_THEOREMS.items()}
 
     def search(self, ctx):
         ls = self.lines(ctx)
@@ -54,9 +72,17 @@ class C04(Check):
                           'non-trivial = calls whose arguments include at least one out-of-range or extreme value',
                      distinct_nontrivial=sum(1 for l in ls if re.search(r'-?2147483\d{3}|65536', l)), sanitizer_aborts=died,
                      samples=[dict(call=ls[i], impl=a[i]) for i in (1, len(ls) // 2, len(ls) - 1)])
+        # doubles at the ends of the format (-0.0, denormals, 1e30 .. DBL_MAX) in every double position of every function: sanitizer
+        # judgement only (a double -> int conversion of such a value would be UBSan's float-cast-overflow); not part of the correspondence run
+        xl = extreme_double_lines(ctx)
+        for l, x in zip(xl, ctx.run_c(xl)):
+            if x.startswith('died'):
+                died += 1; viol.append(dict(key=l, got=x, expected='no undefined access', what='sanitizer abort in the real library (extreme double argument)'))
+        stats['extreme_double_calls'] = len(xl); stats['sanitizer_aborts'] = died
         # the Kissel-dependent functions index their tables only when the table is filled: once more on the regenerated configuration
         KRE = re.compile(r'Kissel|Photo_Total|Photo_Partial|^ElectronConfig$|^P[LM]\d_')
-        kls = [l for l in ls if KRE.search(l.split(' ')[0])]
+        kls = [l for l in ls + xl if KRE.search(l.split(' ')[0])]
+        suf = None
         if kls:
             try:
                 suf = ctx.build_kissel_config('real')
@@ -67,14 +93,54 @@ class C04(Check):
             except core.BuildError as ex:
                 viol.append(dict(key='regenerated-Kissel configuration', got=str(ex)[:300], expected='builds', what='data/kissel -> kissel_pe.dat -> prdata'))
         try:
-            hn, hv, hst = heap_search(self, ctx)
+            hn, hv, hst = heap_search(self, ctx, suf)
         except core.BuildError as ex:
             hn, hv, hst = 0, [dict(key='harness/c04heap.c', got=str(ex)[:400], expected='builds', what='heap harness does not build against the working tree')], {}
         stats.update(hst)
-        stats['rule'] += '; plus call histories over the allocating APIs (parser, NIST / radionuclide lookups and lists, symbols, all 21 _CP functions and the 3 refractive-index entry points on valid, NIST, ' \
-                         'invalid and NULL compounds at energies on both sides of every table end, built-in crystal lookups/copies/lists, user crystal arrays with additions and file loads of ' \
-                         'well-formed / duplicate-name / truncated / garbage / empty / missing files, error objects) under ASan+UBSan with an allocation counter: balance 0 after the documented release'
-        return len(ls) + hn, (viol + hv)[:200], stats
+        stats['rule'] += '; the same functions with -0.0, denormals, 1e30, 1e100, 1e300, DBL_MAX in every double position; plus call histories over the allocating APIs (parser incl. formulas synthesised in C: ' \
+                         'nesting depth to 2000, 200 kB strings; NIST / radionuclide lookups and lists, symbols, add_compound_data, all 21 _CP functions and the 3 refractive-index entry points on valid, NIST, ' \
+                         'invalid and NULL compounds at energies on both sides of every table end and at the ends of the double format, built-in crystal lookups/copies/lists, the seven numeric crystal functions ' \
+                         'with Miller indices / flags / database indices at INT_MIN, INT_MAX, +-65536, user crystal arrays (capacities up to INT_MAX) with additions, copies held across mutations and release, file loads of ' \
+                         'well-formed / duplicate-name / truncated / garbage / empty / missing / byte-mutated files, error objects, NULL at every pointer position, XRayInit, the deprecated setters, c_abs/c_mul, ' \
+                         'xrl_strdup/strndup/malloc) under ASan+UBSan with an allocation counter and an open-descriptor counter: balance 0 after the documented release; the n-th allocation of a call made to fail ' \
+                         '(n swept until the call makes fewer: observation only); the histories once more under MemorySanitizer, library sources compiled with it (uninitialised reads)'
+        return len(ls) + len(xl) + hn, (viol + hv)[:200], stats
+
+
+def extreme_double_lines(ctx):
+    """every generated-dispatch function that takes a double: each double position at each value of DBL_EXT, a few typical integers"""
+    from vlib.core import hx
+    meta = ctx.meta; out = []
+    sigs = dict(meta.get('untranslated', {})); sigs.update(meta['functions'])
+    for f in sorted(sigs):
+        fi = sigs[f]
+        if fi['static'] or fi['outs'] or fi['ret'] not in ('double', 'int') or fi['file'] in ('pr_data.c', 'xrf_cross_sections_aux-private.c'): continue
+        if any(t not in ('int', 'double', 'errpp') for _, t in fi['params']): continue
+        ps = [(n, t) for n, t in fi['params'] if t in ('int', 'double')]
+        dpos = [i for i, (_, t) in enumerate(ps) if t == 'double']
+        if not dpos: continue
+        tail = ' E' if fi['has_error'] else ''
+        ivals = []
+        for n, t in ps:
+            nl = n.lower()
+            if t != 'int': ivals.append(None)
+            elif nl == 'z': ivals.append([1, 26, 82, 92])
+            elif 'shell' in nl: ivals.append([0, 1, 3, 8])
+            elif 'line' in nl: ivals.append([-1, -2, -30, 0, 3])
+            else: ivals.append([0, 1])
+        typ = lambda n: 0.5 if n.lower() in ('pz', 'q') else 1.0 if n.lower() in ('theta', 'phi') else 1.5 if (n.lower().startswith('p') and len(n) <= 3) else 10.0
+        combos = [[]]
+        for iv in ivals:
+            combos = [c + [v] for c in combos for v in (iv or [None])]
+        combos = combos[:: max(1, len(combos) // 12)]
+        for c in combos:
+            for dp in dpos:
+                for x in DBL_EXT:
+                    args = [str(c[i]) if ps[i][1] == 'int' else hx(x if i == dp else typ(ps[i][0])) for i in range(len(ps))]
+                    out.append('%s %s%s' % (f, ' '.join(args), tail))
+            for x in DBL_EXT[-3:]:       # all double positions at once
+                out.append('%s %s%s' % (f, ' '.join(str(c[i]) if ps[i][1] == 'int' else hx(x) for i in range(len(ps))), tail))
+    return out
 
 
 # ---------------------------------------------------------------------------------------------------------------
@@ -97,6 +163,13 @@ def crystal_entries(repo):
         elif cur is not None: cur.append(l)
     return [(e[0].split()[2], e) for e in out if len(e[0].split()) >= 3]
 
+NULL_CALLS = 26          # `null <k>` of harness/c04heap.c
+# the documented behaviour of each NULL call: (rc, error set, error code)
+NULL_EXPECT = {0: (1, 1, 2), 1: (1, 1, 1), 2: (1, 1, 1), 3: (1, 0, -1), 4: (1, 0, -1), 5: (1, 0, -1), 6: (1, 0, -1), 7: (180, 0, -1), 8: (10, 0, -1),
+               9: (None, 0, -1), 10: (1, 0, -1), 11: (1, 0, -1), 12: (1, 0, -1), 13: (1, 0, -1), 14: (1, 0, -1), 15: (1, 0, -1), 16: (1, 0, -1),
+               17: (1, 0, -1), 18: (1, 1, 1), 19: (1, 0, -1), 20: (1, 0, -1), 21: (1, 0, -1), 22: (1, 0, -1), 23: (1, 0, -1), 24: (1, 1, 1), 25: (1, 1, 1)}
+# null 4, 5, 6: FreeCompoundData / FreeCompoundDataNIST / FreeRadioNuclideData(NULL) — a no-op like the other five release functions (repaired: 4c11b33)
+
 def heap_groups(ctx, sc_dir):
     """-> list of groups (each a list of op lines that must stay in one process, brackets closed)"""
     from vlib.core import REPO, hx
@@ -104,9 +177,11 @@ def heap_groups(ctx, sc_dir):
     formulas = ['H2O', 'Ca5(PO4)3OH', 'C6H12O6', 'PuO2', 'Es2O3', 'EsCl3', 'Fm2O3', 'Fe4(Fe(CN)6)3', 'RfO2', 'Rf', 'UO2', 'SiO2', 'H', 'U', 'Lr', 'C22H10N2O5',
                 'Mg0.5Fe0.5O', '((((H2O))))', 'H2(SO4)0.5', 'NaCl', 'LaB6']
     nist = ['Water, Liquid', 'Plutonium Dioxide', 'Ferroboride', 'Air, Dry (near sea level)', 'Gadolinium Oxysulfide', 'Kapton Polyimide Film', 'Bone, Cortical (ICRP)']
-    bad = ['', None, 'Uu', '(', ')', 'H2O)', '(H2O', 'h2o', 'H2O2.5.5', 'H-2', '2H', 'H2 O', 'Water', 'water, liquid', 'Si\xc3\xa9', 'A' * 300, 'H' * 2000, '(H)0', 'H0', 'He.', '.5H', 'H(', 'X', 'Hx', '0', 'O2' * 400]
+    bad = ['', None, 'Uu', '(', ')', 'H2O)', '(H2O', 'h2o', 'H2O2.5.5', 'H-2', '2H', 'H2 O', 'Water', 'water, liquid', 'Si\xc3\xa9', 'A' * 300, 'H' * 2000, '(H)0', 'H0', 'He.', '.5H', 'H(', 'X', 'Hx', '0', 'O2' * 400,
+           '\xe9H2O', '\xff', '\x80\x80', 'H\xe9', '(\xe9)2', 'H2O\x01', 'H' + '9' * 400, 'H0.' + '0' * 400 + '1', 'H1e5', 'H1e400', 'H0x10', 'Hinf', 'Hnan', '((((((((((H))))))))))', 'H' * 20000]
     comps = formulas + nist + bad
     Es = [1e-4, 0.0005, 0.001, 0.0011, 0.05, 0.0999, 0.1, 1.0, 8.0, 99.0, 100.0, 799.0, 801.0, 999.9, 1000.0, 1000.1, 5000.0, 10000.0, 10000.1, 1e5, 0.0, -1.0]
+    Ex = [-0.0, 5e-324, 1e-310, 2.2250738585072014e-308, 1e-30, 1e30, 1e100]      # the ends of the double format (values up to 1e100: beyond, a*a overflows — C12)
     rhos = [1.0, 2.33, 0.0, -1.0]
     groups = []
     one = lambda l: groups.append([l])
@@ -114,20 +189,34 @@ def heap_groups(ctx, sc_dir):
     for c in comps:
         one('nistn ' + esc(c)); one('radn ' + esc(c)); one('s2z ' + esc(c)); one('cget ' + esc(c)); one('ccopy ' + esc(c))
     for rn in ('55Fe', '57Co', '109Cd', '125I', '137Cs', '133Ba', '153Gd', '238Pu', '241Am', '244Cm', '60Co', 'fe55'): one('radn ' + esc(rn))
-    for i in list(range(-2, 183)): one('nisti %d' % i)
-    for i in list(range(-2, 13)): one('radi %d' % i)
-    for z in range(-2, 125): one('z2s %d' % z)
+    for i in list(range(-2, 183)) + INT_EXT: one('nisti %d' % i)
+    for i in list(range(-2, 13)) + INT_EXT: one('radi %d' % i)
+    for z in list(range(-2, 125)) + INT_EXT: one('z2s %d' % z)
     for _ in range(3): one('nistl'); one('radl'); one('clist')
     for k in range(12): one('err %d' % k)
+    for k in range(NULL_CALLS): one('null %d' % k)
+    for k in (0, 1, 3, 4): one('misc %d' % k)
+    for (a, b, c_, d) in [(1.0, 2.0, 3.0, -4.0), (0.0, 0.0, 1.0, 1.0), (-0.0, 1e30, 1e30, 5e-324), (1e-310, 1e-310, 1e-310, 1e-310)]: one('misc 2 %s %s %s %s' % (hx(a), hx(b), hx(c_), hx(d)))
+    # formulas synthesised in the harness: nesting depth and length beyond what a protocol line carries (the parser recurses per bracket level)
+    for d in ([5, 50, 500, 2000] if not thorough else [5, 50, 500, 2000, 5000]): one('cpdeep %d H2O' % d); one('cpdeep %d %s' % (d, esc('Fe2(SO4)3')))
+    one('cpdeep 300 %s' % esc('H2O)('))
+    one('cpdeep %d H2O' % DEEP_OVERFLOW)
+    for n, u in [(1000, 'H2'), (100000, 'O'), (50000, 'H2O'), (3000, '(OH)2'), (20000, 'Uu')] + ([(400000, 'He')] if thorough else []): one('cplong %d %s' % (n, esc(u)))
+    one('cplong 1 H %s' % esc('9' * 3000)); one('cplong 2000 %s %s' % (esc('(H'), esc(')' * 2000)))
+    for (a, wa, b, wb) in [('H2O', 0.5, 'SiO2', 0.25), ('H', 1.0, 'H', 1.0), ('Ca5(PO4)3OH', 0.3, 'C6H12O6', 0.7), ('SiO2', 0.0, 'U', -1.0), ('U', 1e300, 'C22H10N2O5', 5e-324), ('(', 0.5, 'H', 0.5)]:
+        one('acd %s %s %s %s' % (esc(a), hx(wa), esc(b), hx(wb)))
     # compound cross sections and refractive indices: every function x compound x energies incl. both table ends
     nE = len(Es) if thorough else 8
-    for c in comps:
+    for c in comps[:len(formulas) + len(nist) + 26]:
         for k in range(21):
-            for E in (Es if thorough else r.sample(Es, nE)):
-                one('cscp %d %s %s %s %s' % (k, esc(c), hx(E), hx(r.choice([0.0, 0.7, 3.14159, -1.0])), hx(r.choice([0.0, 1.0]))))
+            for E in (Es if thorough else r.sample(Es, nE)) + [r.choice(Ex)]:
+                one('cscp %d %s %s %s %s' % (k, esc(c), hx(E), hx(r.choice([0.0, 0.7, 3.14159, -1.0] + Ex[:3] + [1e30])), hx(r.choice([0.0, 1.0, -0.0, 1e100]))))
         for k in range(3):
-            for E in Es:
-                one('ri %d %s %s %s' % (k, esc(c), hx(E), hx(r.choice(rhos))))
+            for E in Es + [r.choice(Ex)]:
+                one('ri %d %s %s %s' % (k, esc(c), hx(E), hx(r.choice(rhos + Ex[1:3] + [1e100]))))
+    for c in comps[len(formulas) + len(nist) + 26:]:          # the byte-level / long-digit strings: every function at one energy
+        for k in range(21): one('cscp %d %s %s %s %s' % (k, esc(c), hx(8.0), hx(0.7), hx(1.0)))
+        for k in range(3): one('ri %d %s %s %s' % (k, esc(c), hx(8.0), hx(1.0)))
     # numeric crystal functions on copies of built-in crystals: energies on both sides of the Bragg cut-off of common reflections
     cn = [n for n, _ in crystal_entries(REPO)]
     for c in (cn if thorough else r.sample(cn, 8)) + ['nope']:
@@ -135,18 +224,43 @@ def heap_groups(ctx, sc_dir):
             for E in ([0.5, 1.0, 1.5, 1.9, 2.0, 2.6, 3.0, 5.0, 7.9, 8.0, 10.0, 20.0, -1.0, 0.0] if thorough else r.sample([0.5, 1.0, 1.5, 1.9, 2.0, 2.6, 3.0, 5.0, 7.9, 8.0, 10.0, 20.0], 5) + [-1.0, 0.0]):
                 for kf in range(6):
                     one('cfun %d %s %s %d %d %d %s' % (kf, esc(c), hx(E), h, k, l, hx(r.choice([1.0, 0.9, 0.0, -1.0]) if kf in (2, 3) else 1.0)))
-    for Z in (-1, 0, 1, 8, 14, 26, 92, 99, 100, 120, 121):
-        for E in (0.0005, 0.001, 1.0, 8.0, 9999.0, 10001.0, -1.0):
-            for q in (0.0, 0.5, 1e9, -1.0):
-                one('af %d %s %s %s' % (Z, hx(E), hx(q), hx(r.choice([1.0, 0.0, -0.5]))))
+    # Miller indices: the whole box [-3,4]^3 at one energy (d-spacing, Bragg angle; F_H on a sample), and the ends of int
+    box = [(h, k, l) for h in range(-3, 5) for k in range(-3, 5) for l in range(-3, 5)]
+    for c in ['Si', 'AlphaQuartz'] + ([r.choice(cn)] if cn else []):
+        for (h, k, l) in box:
+            one('cfun 5 %s %s %d %d %d %s' % (esc(c), hx(8.0), h, k, l, hx(1.0))); one('cfun 0 %s %s %d %d %d %s' % (esc(c), hx(12.0), h, k, l, hx(1.0)))
+        for (h, k, l) in (box if thorough else r.sample(box, 60)):
+            one('cfun 2 %s %s %d %d %d %s' % (esc(c), hx(12.0), h, k, l, hx(0.9)))
+    ext3 = [(INT_MAX, 1, 1), (1, INT_MIN, 1), (1, 1, INT_MAX - 1), (INT_MIN, INT_MIN, INT_MIN), (INT_MAX, INT_MAX, INT_MAX), (65536, -65536, 0), (INT_MIN + 1, 0, 0), (0, 0, INT_MIN),
+            (46341, 46341, 46341), (-46341, 46341, 1), (65536, 65536, 65536)]
+    for c in ['Si', 'Muscovite' if 'Muscovite' in cn else 'Ge', 'nope']:
+        for (h, k, l) in ext3:
+            for kf in range(6):
+                for E in (8.0, 1e30, 5e-324):
+                    one('cfun %d %s %s %d %d %d %s' % (kf, esc(c), hx(E), h, k, l, hx(1.0)))
+    # F_H_Partial: every flag value (valid 0/1/2, invalid, ends of int) and rel_angle / Debye factors incl. the ends of the format
+    flags = [-1, 0, 1, 2, 3, INT_MIN, INT_MAX]
+    for c in ['Si', 'nope']:
+        for f0 in flags:
+            for fp in flags:
+                for fpp in (flags if thorough else [0, 2, r.choice(flags)]):
+                    one('cfunp %s %s 1 1 1 %s %s %d %d %d' % (esc(c), hx(8.0), hx(1.0), hx(1.0), f0, fp, fpp))
+        for rel in [0.0, 0.5, 1.0, 2.0, -1.0, 1e30, 1e300, 5e-324, -0.0]:
+            for deb in [1.0, 0.5, 5e-324, 1e300, -0.0]:
+                one('cfunp %s %s 2 2 0 %s %s 2 2 2' % (esc(c), hx(8.0), hx(deb), hx(rel)))
+            one('cfunp %s %s 2 2 0 %s %s 2 2 2 q' % (esc(c), hx(8.0), hx(1.0), hx(rel)))
+    for Z in [-1, 0, 1, 8, 14, 26, 92, 99, 100, 120, 121] + INT_EXT:
+        for E in (0.0005, 0.001, 1.0, 8.0, 9999.0, 10001.0, -1.0) + ((r.choice(Ex),) if Z > 0 else ()):
+            for q in (0.0, 0.5, 1e9, -1.0, 5e-324, 1e100):
+                one('af %d %s %s %s' % (Z, hx(E), hx(q), hx(r.choice([1.0, 0.0, -0.5, 5e-324, 1e300]))))
     # crystal arrays: brackets ainit .. afree with additions, file loads (well-formed, duplicate names, name already present,
-    # truncated, garbage, empty, missing), lookups and listings
+    # truncated, garbage, empty, missing, byte-level mutations of a real entry), lookups and listings
     ents = crystal_entries(REPO)
     names = [n for n, _ in ents]
     os.makedirs(sc_dir, exist_ok=True)
     def mkfile(tag, chunks):
         p = os.path.join(sc_dir, tag + '.dat')
-        with open(p, 'w') as f: f.write(''.join(chunks))
+        with open(p, 'wb') as f: f.write(''.join(chunks).encode('latin1'))
         return p
     def entry(name, newname=None, drop=None):
         e = list(dict(ents)[name])
@@ -169,38 +283,77 @@ def heap_groups(ctx, sc_dir):
             e = list(dict(ents)[a]); k = next(j for j, x in enumerate(e) if x.startswith('#L')) + 1
             files.append(mkfile('noatoms%d' % i, ['#S 1 Z%da\n' % i] + e[1:k] + [entry(b, 'Z%db' % i), '#EOF\n']))
         else: files.append(mkfile('many%d' % i, [entry(r.choice(names), 'M%d_%d' % (i, j)) for j in range(25)] + ['#EOF\n']))
-    files.append(os.path.join(sc_dir, 'does-not-exist.dat'))
+    # byte-level mutations of one real entry (the reader works with fgets(…, 100), sscanf %20s / %d / %lf and fscanf %i %lf…)
+    base = entry('Si', 'Mut') + '#EOF\n'
+    muts = []
+    nm = 40 if not thorough else 300
+    for j in range(nm):
+        kind = j % 10; t = base
+        if kind == 0: t = base[:r.randrange(0, len(base))]                                          # truncated at a random byte
+        elif kind == 1: pos = r.randrange(len(base)); t = base[:pos] + chr(r.choice([0x80, 0xff, 0xe9, 0x01, 0x7f])) + base[pos + 1:]   # one byte replaced
+        elif kind == 2: pos = r.randrange(len(base)); t = base[:pos] + 'X' * r.choice([99, 100, 101, 250, 2000]) + base[pos:]           # a very long line
+        elif kind == 3: t = base.replace('Mut', 'M' * r.choice([19, 20, 21, 40, 300]), 1)           # long crystal name (%20s)
+        elif kind == 4: t = re.sub(r'^(\d+)(\s)', lambda m_: r.choice(['99999999999999999999', '-2147483649', '2147483648', '0x7fffffff', '010', '121', '-5', '1e9']) + m_.group(2), base, count=1, flags=re.M)   # Zatom field
+        elif kind == 5: t = base.replace('#UCELL', r.choice(['#UCELL nan', '#UCELL 1e999 inf', '#UCELL -0.0', '#UCELLX', '#UCEL']), 1)
+        elif kind == 6: t = base.replace('\n', '\r\n')                                                # CRLF
+        elif kind == 7: t = base.replace('#L', '#L' + 'y' * 200, 1)                                    # the #L line longer than the read buffer
+        elif kind == 8: t = base.replace('\n', '\x00\n', r.randrange(1, 4))                           # NUL bytes
+        else: t = ''.join(chr(r.randrange(256)) for _ in range(r.choice([1, 7, 99, 100, 101, 513])))  # random bytes
+        muts.append(mkfile('mut%d' % j, [t]))
+    files_all = files + muts
+    files.append(os.path.join(sc_dir, 'does-not-exist.dat')); files_all.append(files[-1]); files_all.append(sc_dir)      # a directory
     groups.append(['bfill 40'])          # the built-in collection filled up, then 40 refused additions (its own process: the collection is global)
     for h in range(12 if not thorough else 120):
         g = ['ainit %d' % r.choice([0, 1, 2, 3, 9, 10, 11, 19, 20])]
         for j in range(r.randrange(2, 30)):
             k = r.random()
-            if k < 0.45: g.append('aadd %s %s' % (esc(r.choice(names)), esc(r.choice(['Pre', 'A%d' % r.randrange(40), r.choice(names)]))))
-            elif k < 0.7: g.append('aread ' + esc(r.choice(files)))
-            elif k < 0.85: g.append('aget ' + esc(r.choice(['Pre', 'A%d' % r.randrange(40), 'nope', 'Z8a', 'Z8b', r.choice(names)])))
+            if k < 0.40: g.append('aadd %s %s' % (esc(r.choice(names)), esc(r.choice(['Pre', 'A%d' % r.randrange(40), r.choice(names)]))))
+            elif k < 0.65: g.append('aread ' + esc(r.choice(files)))
+            elif k < 0.78: g.append('aget ' + esc(r.choice(['Pre', 'A%d' % r.randrange(40), 'nope', 'Z8a', 'Z8b', r.choice(names)])))
+            elif k < 0.88: g.append('ahold ' + esc(r.choice(['Pre', 'A%d' % r.randrange(40), 'Mut', r.choice(names)])))
+            elif k < 0.92: g.append('adrop')
             else: g.append('alist')
         g.append('afree')
+        g.append('adrop')          # copies handed out earlier are used and released AFTER the array is gone
         groups.append(g)
+    for f in muts + [sc_dir]: groups.append(['ainit 2', 'aread ' + esc(f), 'ahold Mut', 'alist', 'aget Mut', 'afree', 'adrop'])
+    # array capacities at the ends of int (a refused capacity leaves no array: the rest of the bracket is then not executed)
+    for n in [-1, INT_MIN, INT_MIN + 1, -65536, 65536, INT_MAX, INT_MAX - 1, 1 << 24]:
+        groups.append(['ainit %d' % n, 'aadd Si Pre', 'alist', 'afree'])
     return groups
 
-def run_heap(ctx, exe, groups, locale='C'):
-    """runs the groups in parallel worker processes; -> list of (group index, line index or None, answer lines, died?)"""
+# Deep nesting: CompoundParserSimple recurses once per bracket level (xraylib-parser.c:253); with the 8 MiB stack the harness runs under, the
+# ASan build overflows between 20000 and 25000 levels.  known_findings.txt records it under this key; ONLY a stack-overflow death of a
+# `cpdeep N …` operation with N >= DEEP_MIN is filed under it — anything else on such an operation is a violation of its own.
+DEEP_KEY = 'cpdeep CompoundParserSimple recursion xraylib-parser.c:253'
+DEEP_MIN = 20000
+DEEP_OVERFLOW = 40000
+
+ASAN_OPTS = 'detect_leaks=0:abort_on_error=0:exitcode=99:allocator_may_return_null=1:max_allocation_size_mb=3072'
+
+def run_heap(ctx, exe, groups, locale='C', extra_env=None, timeout=600):
+    """runs the groups in parallel worker processes; -> {group index: (answer lines, None | text of the death)}"""
     import subprocess, concurrent.futures
     nw = 12
     buckets = [[] for _ in range(nw)]
     for i, g in enumerate(groups): buckets[i % nw].append(i)
     env = {k: v for k, v in os.environ.items() if not k.startswith('LC_') and k != 'LANG'}
-    env.update(ASAN_OPTIONS='detect_leaks=0:abort_on_error=0:exitcode=99', UBSAN_OPTIONS='halt_on_error=1:exitcode=99', LC_ALL=locale)
+    env.update(ASAN_OPTIONS=ASAN_OPTS, UBSAN_OPTIONS='halt_on_error=1:exitcode=99', LC_ALL=locale)
+    if extra_env: env.update(extra_env)
+    def limits():
+        import resource          # a fixed stack size: the depth at which the recursive parser overflows must not depend on the caller's ulimit
+        try: resource.setrlimit(resource.RLIMIT_STACK, (8 << 20, resource.getrlimit(resource.RLIMIT_STACK)[1]))
+        except (ValueError, OSError): pass
     results = {}
     def work(idxs):
         todo = list(idxs)
         while todo:
             lines = [l for i in todo for l in groups[i]]
             try:
-                p = subprocess.run([exe], input='\n'.join(lines) + '\n', capture_output=True, text=True, errors='replace', env=env, timeout=600)
+                p = subprocess.run([exe], input='\n'.join(lines) + '\n', capture_output=True, text=True, errors='replace', env=env, timeout=timeout, preexec_fn=limits)
             except subprocess.TimeoutExpired as ex:
                 class P: pass
-                p = P(); p.returncode = -9; p.stdout = ex.stdout.decode('latin1') if isinstance(ex.stdout, bytes) else (ex.stdout or ''); p.stderr = 'no answer within 600 s (hang)'
+                p = P(); p.returncode = -9; p.stdout = ex.stdout.decode('latin1') if isinstance(ex.stdout, bytes) else (ex.stdout or ''); p.stderr = 'no answer within %d s (hang)' % timeout
             out = p.stdout.split('\n'); out = out[:-1] if out and out[-1] == '' else out
             pos = 0; nxt = []
             for n, i in enumerate(todo):
@@ -210,44 +363,195 @@ def run_heap(ctx, exe, groups, locale='C'):
                     results[i] = (got, None); pos += k
                 else:
                     # the process died inside this group: record, then continue with the remaining groups in a fresh process
-                    results[i] = (got, (p.stderr or '')[-1500:] or 'exit %d' % p.returncode)
+                    txt = p.stderr or ''
+                    head = re.search(r'ERROR: AddressSanitizer: [^\n]*|runtime error: [^\n]*|WARNING: MemorySanitizer: [^\n]*', txt)
+                    results[i] = (got, ((head.group(0) + '\n') if head else '') + txt[-1500:] or 'exit %d' % p.returncode)
                     nxt = todo[n + 1:]
                     break
             todo = nxt
     with concurrent.futures.ThreadPoolExecutor(nw) as ex: list(ex.map(work, buckets))
     return results
 
-def heap_search(check, ctx):
+ANS = re.compile(r'(-?\d+) d=(open|held-imbalance|-?\d+) e=(\d)(?: c=(-?\d+) m=(-?\d+) v=(\S+) ow=(\d+) dg=(\d+) fd=(-?\d+) p=(-?\d+) fa=(\d))?')
+
+def parse_heap(a):
+    m = ANS.match(a)
+    if not m: return None
+    g = m.groups()
+    return dict(rc=int(g[0]), d=g[1], e=int(g[2]), c=int(g[3]) if g[3] is not None else -1, m=int(g[4]) if g[4] is not None else 0, v=g[5] or '-',
+                ow=int(g[6] or 0), dg=int(g[7] or 0), fd=int(g[8] or 0), p=int(g[9] or -1), fa=int(g[10] or 0))
+
+def first_report(died):
+    first = re.search(r'(ERROR: AddressSanitizer: [^\n]*|runtime error: [^\n]*|WARNING: MemorySanitizer: [^\n]*|double free[^\n]*|SUMMARY: [^\n]*)', died or '')
+    return first.group(1) if first else (died or '')[-300:]
+
+def judge_groups(gs, res, tag, viol, kinds, counters, what='sanitizer abort / crash in the real library during a call history over the allocating API'):
+    """memory judgement of one run: every answer well-formed, balance 0, no descriptor left open, no death"""
+    for i, g in enumerate(gs):
+        got, died = res.get(i, ([], 'not run'))
+        refused = False
+        for l, a in zip(g, got):
+            counters['ops'] += 1; kinds[l.split(' ')[0]] = kinds.get(l.split(' ')[0], 0) + 1
+            key = (' ; '.join(g) if len(g) > 1 else l) + tag
+            if a == 'bad-op' and refused:
+                continue                      # the array of this bracket was refused at ainit: nothing to run
+            m = parse_heap(a)
+            if not m:
+                viol.append(dict(key=key, got=a, expected='an answer', what='heap harness: malformed answer')); continue
+            if l.split(':')[-1].startswith('ainit ') and m['rc'] == 0: refused = True
+            if m['e'] == 1: counters['fail'] += 1
+            if m['d'] not in ('open', '0'):
+                viol.append(dict(key=key, got=a, expected='d=0: no block allocated on behalf of the finished call(s) is still held after release',
+                                 what='memory still held after the documented release (%s blocks), %s path' % (m['d'], 'failure' if (m['e'] == 1 or a.startswith('0 ')) else 'success')))
+            if m['fd'] != 0:
+                viol.append(dict(key=key, got=a, expected='fd=0: no file descriptor opened by the call is still open when it returns',
+                                 what='file descriptor / FILE* left open (%+d), %s path' % (m['fd'], 'failure' if m['e'] == 1 else 'success')))
+            mdp = re.match(r'(?:[NP]:)?cpdeep (\d+) (H2O|Fe2%28SO4%293)$', l)
+            if mdp and not (m['rc'] == 1 and m['v'].startswith('x') and abs(core.unhx(m['v']) - {'H2O': 18.015, 'Fe2%28SO4%293': 399.9}[mdp.group(2)]) < 0.1):
+                viol.append(dict(key=key, got=a, expected='the composition of the formula inside the brackets (molar mass %s)' % {'H2O': '18.015', 'Fe2%28SO4%293': '399.88'}[mdp.group(2)],
+                                 what='a formula nested in %s bracket pairs: rejected or parsed to another composition' % mdp.group(1)))
+            if l.split(':')[-1].split(' ')[0] == 'adrop' and m['rc'] < 0:
+                viol.append(dict(key=key, got=a, expected='every copy handed out by the array is still a complete crystal after later additions / loads / release of the array',
+                                 what='a crystal copy kept by the caller was damaged by a later operation on the array (shared storage)'))
+        if died is not None:
+            at = g[len(got)] if len(got) < len(g) else g[-1]
+            md = re.match(r'(?:[NP]:)?cpdeep (\d+) ', at)
+            if md and int(md.group(1)) >= DEEP_MIN and 'stack-overflow' in died and len(g) == 1:
+                viol.append(dict(key=DEEP_KEY, got=first_report(died)[:200], expected='no undefined access', what='stack overflow: unbounded recursion of the formula parser on %s nested bracket pairs (%s)' % (md.group(1), at))); continue
+            viol.append(dict(key=(' ; '.join(g[:len(got) + 1]) if len(g) > 1 else at) + tag, got=first_report(died), expected='no undefined access', what='%s (at: %s)' % (what, at)))
+
+# operations swept with an allocation failure at every position
+def oom_ops(ctx, files_dir):
+    from vlib.core import hx
+    ops = ['cp H2O', 'cp ' + esc('Ca5(PO4)3OH'), 'cp ' + esc('('), 'cp Uu', 'nistn ' + esc('Water, Liquid'), 'nistn nope', 'nisti 5', 'nisti -1', 'nistl', 'radn 55Fe', 'radn nope', 'radi 3', 'radi 99', 'radl',
+           'z2s 26', 'z2s -1', 's2z Fe', 's2z Xx', 'cget Si', 'cget nope', 'ccopy Si', 'clist', 'ainit 4', 'ainit -1',
+           'cscp 0 H2O %s x0 x0' % hx(8.0), 'cscp 0 %s %s x0 x0' % (esc('Water, Liquid'), hx(8.0)), 'cscp 0 H2O %s x0 x0' % hx(-1.0), 'cscp 0 nope %s x0 x0' % hx(8.0), 'cscp 13 SiO2 %s %s x0' % (hx(8.0), hx(0.7)),
+           'ri 0 H2O %s %s' % (hx(8.0), hx(1.0)), 'ri 2 %s %s %s' % (esc('Water, Liquid'), hx(8.0), hx(-1.0)), 'ri 1 nope %s %s' % (hx(8.0), hx(1.0)),
+           'cfun 0 Si %s 1 1 1 %s' % (hx(8.0), hx(1.0)), 'cfun 2 Si %s 1 1 1 %s' % (hx(8.0), hx(1.0)), 'cfun 2 Si %s 1 1 1 %s' % (hx(-1.0), hx(1.0)), 'cfun 5 Si %s 0 0 0 %s' % (hx(8.0), hx(1.0)),
+           'af 26 %s %s %s' % (hx(8.0), hx(0.5), hx(1.0)), 'af -1 %s %s %s' % (hx(8.0), hx(0.5), hx(1.0)), 'acd H2O %s SiO2 %s' % (hx(0.5), hx(0.5)), 'misc 4', 'err 1', 'err 2', 'err 5', 'null 0', 'null 1', 'null 10']
+    return ops
+
+def oom_sweep(ctx, exe, files_dir, maxn=80):
+    """fail the n-th allocation of each operation, n = 1, 2, … until the operation makes fewer than n (fa=0).
+    -> (n evaluated, results: list of dict(op, n, outcome, got))"""
+    from vlib.core import hx
+    ops = oom_ops(ctx, files_dir)
+    # a bracket with a file load and additions: the failure is armed for ONE operation of the bracket (the array must stay consistent and be released completely)
+    okf = [f for f in sorted(os.listdir(files_dir)) if f.startswith('ok')]
+    brackets = []
+    if okf:
+        f = esc(os.path.join(files_dir, okf[0]))
+        brackets = [(['ainit 1', 'aadd Si Pre'], 'aread ' + f, ['alist', 'aget Pre', 'afree']), (['ainit 0'], 'aadd Si Pre', ['aadd Ge G2', 'alist', 'afree']),
+                    (['ainit 1', 'aadd Si Pre'], 'aadd Ge G2', ['aget G2', 'alist', 'afree']), (['ainit 2', 'aadd Si Pre'], 'alist', ['afree']), (['ainit 2', 'aadd Si Pre'], 'aget Pre', ['afree']),
+                    (['ainit 2', 'aadd Si Pre'], 'ahold Pre', ['afree', 'adrop'])]
+    active = [('s', o) for o in ops] + [('b', b) for b in brackets]
+    # what each operation does when no allocation fails
+    bres = run_heap(ctx, exe, [[o] for o in ops])
+    base = {o: parse_heap((bres.get(i, ([], None))[0] or ['?'])[0]) for i, o in enumerate(ops)}
+    results = []; nev = 0
+    for n in range(1, maxn + 1):
+        if not active: break
+        gs = [['F%d:%s' % (n, x)] if k == 's' else (x[0] + ['F%d:%s' % (n, x[1])] + x[2]) for k, x in active]
+        res = run_heap(ctx, exe, gs)
+        nxt = []
+        for i, (k, x) in enumerate(active):
+            got, died = res.get(i, ([], 'not run')); nev += 1
+            idx = 0 if k == 's' else len(x[0])
+            name = x if k == 's' else ' ; '.join(x[0] + [x[1]] + x[2])
+            if died is not None:
+                results.append(dict(op=name, n=n, outcome='crash', got=first_report(died), line=' ; '.join(gs[i]))); nxt.append((k, x)); continue
+            ms = [parse_heap(a) for a in got]
+            m = ms[idx] if idx < len(ms) else None
+            if m is None or any(y is None and a != 'bad-op' for y, a in zip(ms, got)):
+                results.append(dict(op=name, n=n, outcome='malformed', got=' | '.join(got), line=' ; '.join(gs[i]))); continue
+            if not m['fa']: continue                      # fewer than n allocations: this operation is done
+            nxt.append((k, x))
+            b = base.get(x) if k == 's' else None
+            op0 = (x if k == 's' else x[1]).split(' ')[0]
+            out = 'ok-failed' if m['e'] else 'ok-result'
+            if any(y is not None and y['d'] not in ('0', 'open') for y in ms): out = 'leak'
+            elif any(y is not None and y['fd'] != 0 for y in ms): out = 'fd-leak'
+            elif m['e'] and (m['m'] <= 0 or (m['rc'] != 0 and op0 not in ('err', 'misc', 'null'))): out = 'bad-error'       # an error without a message, or an error next to a result
+            elif not m['e'] and m['rc'] == 0 and b is not None and b['rc'] != 0 and op0 not in ('err', 'misc'): out = 'null-without-error'
+            elif m['e'] and m['c'] != 0 and not (b is not None and b['e'] and b['c'] == m['c']): out = 'ok-failed-other-code'
+            results.append(dict(op=name, n=n, outcome=out, got=got[idx], line=' ; '.join(gs[i])))
+        active = nxt
+    return nev, results
+
+def heap_search(check, ctx, ksuf=None):
     from vlib import cbuild
     from vlib.core import REPO
     exe = ctx.sc.path('c04heap')
-    cbuild.link(ctx.sc, ctx.objs, [os.path.join(VERIF, 'harness', 'c04heap.c')], exe, ctx.cfl + ['-I' + os.path.join(REPO, 'src')] + WRAP)
+    lfl = ctx.cfl + ['-I' + os.path.join(REPO, 'src')] + WRAP
+    cbuild.link(ctx.sc, ctx.objs, [os.path.join(VERIF, 'harness', 'c04heap.c')], exe, lfl)
     groups = heap_groups(ctx, ctx.sc.path('c04files'))
-    # the same single operations once more WITHOUT an error slot (ownership of nested error objects), and the operations that
+    # the same single operations once more WITHOUT an error slot (ownership of nested error objects) and with a slot that ALREADY holds
+    # an error (the failing call must neither leak the error it cannot store nor free the one it finds), and the operations that
     # parse a compound once more in a non-C numeric locale (the parser saves / switches / restores LC_NUMERIC)
-    singles = [g for g in groups if len(g) == 1 and not g[0].startswith(('err ', 'bfill '))]
+    singles = [g for g in groups if len(g) == 1 and not g[0].startswith(('err ', 'bfill ', 'misc ', 'cpdeep ', 'cplong '))]
     noslot = [['N:' + g[0]] for g in singles]
-    loc = [g for g in groups if g[0].split(' ')[0] in ('cp', 'cscp', 'ri')]
+    pre = [['P:' + g[0]] for g in (singles if ctx.tier == 'thorough' else singles[::3])]
+    loc = [g for g in groups if g[0].split(' ')[0] in ('cp', 'cscp', 'ri', 'acd', 'cplong')]
     if ctx.tier != 'thorough': loc = loc[::3]
-    viol = []; nops = 0; kinds = {}; nfail = 0
-    for tag, gs, locale in (('', groups + noslot, 'C'), ('  @LC_ALL=C.UTF-8', loc + [['N:' + g[0]] for g in loc[::4]], 'C.UTF-8')):
+    viol = []; kinds = {}; cnt = dict(ops=0, fail=0)
+    for tag, gs, locale in (('', groups + noslot + pre, 'C'), ('  @LC_ALL=C.UTF-8', loc + [['N:' + g[0]] for g in loc[::4]], 'C.UTF-8')):
         res = run_heap(ctx, exe, gs, locale)
-        for i, g in enumerate(gs):
-            got, died = res.get(i, ([], 'not run'))
-            for l, a in zip(g, got):
-                nops += 1; kinds[l.split(' ')[0]] = kinds.get(l.split(' ')[0], 0) + 1
-                m = re.match(r'(-?\d+) d=(open|-?\d+) e=(\d)', a)
-                if not m:
-                    viol.append(dict(key=(' ; '.join(g) if len(g) > 1 else l) + tag, got=a, expected='an answer', what='heap harness: malformed answer')); continue
-                if m.group(3) == '1': nfail += 1
-                if m.group(2) not in ('open', '0'):
-                    viol.append(dict(key=(' ; '.join(g) if len(g) > 1 else l) + tag, got=a, expected='d=0: no block allocated on behalf of the finished call(s) is still held after release',
-                                     what='memory still held after the documented release (%s blocks), %s path' % (m.group(2), 'failure' if (m.group(3) == '1' or a.startswith('0 ')) else 'success')))
-            if died is not None:
-                at = g[len(got)] if len(got) < len(g) else g[-1]
-                first = re.search(r'(ERROR: AddressSanitizer: [^\n]*|runtime error: [^\n]*|double free[^\n]*|SUMMARY: [^\n]*)', died)
-                viol.append(dict(key=(' ; '.join(g[:len(got) + 1]) if len(g) > 1 else at) + tag, got=(first.group(1) if first else died[-300:]), expected='no undefined access',
-                                 what='sanitizer abort / crash in the real library during a call history over the allocating API (at: %s)' % at))
-    return nops, viol, dict(heap_ops=nops, heap_groups=len(groups), heap_noslot_ops=len(noslot), heap_nonC_locale_groups=len(loc), heap_op_kinds=kinds, heap_failure_paths=nfail)
+        judge_groups(gs, res, tag, viol, kinds, cnt)
+    st = dict(heap_groups=len(groups), heap_noslot_ops=len(noslot), heap_prefilled_slot_ops=len(pre), heap_nonC_locale_groups=len(loc))
+    # the _CP functions that read the Kissel tables succeed only on a filled table: the regenerated configuration
+    if ksuf:
+        kexe = ctx.sc.path('c04heap' + ksuf)
+        kobjs = [x for x in ctx.objs if not x.endswith('xrayglob_inline.c.o')] + [ctx.sc.path('o_san', 'xrayglob_inline_%s.c.o' % ksuf)]
+        cbuild.link(ctx.sc, kobjs, [os.path.join(VERIF, 'harness', 'c04heap.c')], kexe, lfl)
+        kg = [g for g in groups if len(g) == 1 and re.match(r'cscp (8|9|10|11) ', g[0])]
+        kg = kg + [['N:' + g[0]] for g in kg[::2]]
+        kres = run_heap(ctx, kexe, kg)
+        judge_groups(kg, kres, '  @real', viol, kinds, cnt)
+        st['heap_kissel_cp_ops'] = len(kg)
+        st['heap_kissel_cp_succeeded'] = sum(1 for i in range(len(kg)) for a in kres.get(i, ([], None))[0] if (parse_heap(a) or {}).get('e') == 0 and (parse_heap(a) or {}).get('rc'))
+    # allocation failures
+    nev, oom = oom_sweep(ctx, exe, ctx.sc.path('c04files'))
+    cls = {}
+    for x in oom: cls[x['outcome']] = cls.get(x['outcome'], 0) + 1
+    per = {}
+    for x in oom:
+        k = 'crash' if x['outcome'] == 'crash' else 'clean' if x['outcome'] in ('ok-result', 'ok-failed') else 'contract-break'
+        per.setdefault(x['op'][:120], dict(crash=0, **{'contract-break': 0}, clean=0))[k] += 1
+    st['alloc_failure_sweep'] = dict(note='OBSERVATION ONLY (allocation failure is outside the quantifier of C04): the n-th allocation made inside one operation returns NULL, n = 1, 2, … until the operation makes fewer; '
+                                          'clean = fails with an error / completes, nothing leaked; contract-break = NULL without error, error without message, leak, unexpected code; crash = sanitizer abort',
+                                     evaluations=nev, fired=len(oom), outcomes=cls, operations=len({x['op'] for x in oom}), per_operation=per,
+                                     examples={k: [dict(line=x['line'], got=x['got'][:160]) for x in oom if x['outcome'] == k][:4] for k in cls})
+    if OOM_IS_VIOLATION:
+        for x in oom:
+            if x['outcome'] in ('crash', 'leak', 'fd-leak', 'bad-error', 'malformed', 'null-without-error'):
+                viol.append(dict(key=x['line'], got=x['got'], expected='the call fails with an error (XRL_ERROR_MEMORY) or completes; no undefined access, nothing left allocated or open',
+                                 what='allocation failure (the %d-th allocation of the call returns NULL): %s' % (x['n'], x['outcome'])))
+    # uninitialised reads: the histories once more under MemorySanitizer (library sources compiled with it too)
+    if os.environ.get('VERIF_C04_MSAN', '1') != '0':
+        mn, mv, mst = msan_pass(check, ctx, groups + (noslot if ctx.tier == 'thorough' else noslot[::5]))
+        viol += mv; st.update(mst); cnt['ops'] += mn
+    st.update(heap_ops=cnt['ops'], heap_op_kinds=kinds, heap_failure_paths=cnt['fail'])
+    return cnt['ops'] + nev, viol, st
+
+# Allocation failure is outside the quantifier of C04 ("for any arguments … and any sequence of calls": a failing allocator is neither):
+# the sweep is an evidence-only OBSERVATION (counts per outcome and per operation in `alloc_failure_sweep`), never a violation.
+# Not claimed: behaviour under allocation failure (notes/C0304B_REPORT.md lists what the sweep sees on the unchanged library).
+OOM_IS_VIOLATION = False
+
+def msan_pass(check, ctx, groups):
+    """library + harness under clang -fsanitize=memory: a read of an uninitialised value that decides a branch / is passed to libc dies"""
+    import time
+    from vlib import cbuild
+    from vlib.core import REPO
+    t = time.time()
+    objs, fl = cbuild.build_lib(ctx.sc, REPO, san='memory', tag='msan', extra=('-fsanitize-memory-track-origins=2',))
+    exe = ctx.sc.path('c04heap_msan')
+    cbuild.link(ctx.sc, objs, [os.path.join(VERIF, 'harness', 'c04heap.c')], exe, fl + ['-I' + os.path.join(REPO, 'src')] + WRAP)
+    gs = [g for g in groups if not g[0].split(':')[-1].startswith(('cpdeep', 'cplong 100000', 'cplong 400000', 'bfill'))]
+    res = run_heap(ctx, exe, gs, extra_env=dict(MSAN_OPTIONS='exitcode=99:halt_on_error=1:allocator_may_return_null=1:max_allocation_size_mb=3072'))
+    viol = []; kinds = {}; cnt = dict(ops=0, fail=0)
+    judge_groups(gs, res, '  @MemorySanitizer', viol, kinds, cnt, what='MemorySanitizer: use of an uninitialised value / crash in the real library')
+    ctx.tick('msan', t)
+    return cnt['ops'], viol, dict(msan_ops=cnt['ops'], msan_groups=len(gs))
 
 CHECK = C04()
